@@ -75,7 +75,7 @@ def make_bay(ctx, cfg, stacks=None):
     bay.laminaprop = (1., 1., 0.3)
     bay.mu = ctx.V('mu')
     for nm in [c + e + d for c in 'uvw' for e in ('1t', '1r', '2t', '2r') for d in 'xy']:
-        setattr(bay, nm, ctx.V(nm))
+        setattr(bay, nm, (cfg.get('flags') or {}).get(nm, ctx.V(nm)))      # the bay's edge flags, handed to the skin panels by add_panel
     # the skin laminate: one symbolic ABD shared by every skin panel (uniformly laminated skin)
     lam = FakeLam()
     lam.ABD = sym_ABD('skin_', ctx.V)
